@@ -3,6 +3,7 @@ package props
 import (
 	"encoding/json"
 	"fmt"
+	"runtime"
 	"strings"
 
 	"grol.io/grol/ast"
@@ -47,8 +48,9 @@ var c08Alphabet = []string{
 }
 
 type c08Case struct {
-	In   string `json:"input"` // Go-quoted
-	Line bool   `json:"line_mode"`
+	In    string `json:"input"` // Go-quoted
+	Line  bool   `json:"line_mode"`
+	Alloc bool   `json:"check_allocation,omitempty"` // also bound what lexing and parsing it allocates
 }
 
 // lineOfInput reports whether quoted is a run of whole lines of the input.
@@ -146,6 +148,17 @@ func (p c08) both(c *fw.Ctx, src string) {
 	p.one(c, src, true)
 }
 
+// bounded runs both modes and bounds what they allocate by a multiple of the input size.
+func (p c08) bounded(c *fw.Ctx, src string) {
+	var m0, m1 runtime.MemStats
+	runtime.ReadMemStats(&m0)
+	p.both(c, src)
+	runtime.ReadMemStats(&m1)
+	if alloc := m1.TotalAlloc - m0.TotalAlloc; alloc > uint64(len(src))*2000+(64<<20) {
+		c.Violate("parse-allocation", "front:parse-allocation", c08Case{In: fw.Q(src), Alloc: true}, fmt.Sprintf("lexing and parsing %d bytes in both modes allocated %d MiB", len(src), alloc>>20))
+	}
+}
+
 func (p c08) RunBatch(c *fw.Ctx) {
 	// syntax nested deeper than anything may recurse on: chains of else-if, like parentheses, must be refused or printable
 	if c.Batch == 1%c.NBatches {
@@ -153,6 +166,16 @@ func (p c08) RunBatch(c *fw.Ctx) {
 			p.both(c, "if a {} "+strings.Repeat("else if a {} ", n))
 			p.both(c, "x = "+strings.Repeat("if a {1} else {", n)+"2"+strings.Repeat("}", n))
 			c.Count("deep_else_if_chains", 2)
+		}
+	}
+	// one very long line of tokens that each are an error: reporting must stay proportional to the input (what is
+	// allocated while parsing is counted: deterministic, unlike time)
+	if c.Batch == 2%c.NBatches {
+		for _, junk := range []string{"*/ ", ") ", "] ", "} ", ", ", "=> ", ": ", "else ", "\"a\" \"b\" ", "1 2 ", ". "} {
+			for _, n := range []int{3000, 30000} {
+				p.bounded(c, "1 "+strings.Repeat(junk, n))
+				c.Count("long_garbage_lines", 1)
+			}
 		}
 	}
 	InitGrol(nil)
@@ -245,6 +268,10 @@ func (p c08) ReplayCase(c *fw.Ctx, input json.RawMessage) {
 		return
 	}
 	src := fw.UQ(cs.In)
+	if cs.Alloc {
+		p.bounded(c, src)
+		return
+	}
 	p.one(c, src, cs.Line)
 	if !cs.Line {
 		p.one(c, src, true)
